@@ -2,6 +2,7 @@ mod checks;
 mod codec;
 mod disk;
 mod engines;
+mod fine;
 mod harness;
 mod model;
 mod parent;
@@ -37,7 +38,10 @@ fn start_watchdog(limit_secs: u64, label: String) -> std::sync::Arc<std::sync::a
         let mut since = std::time::Instant::now();
         loop {
             std::thread::sleep(std::time::Duration::from_millis(500));
+            // progress = a new run began or the scheduler took steps
             let now = b.load(std::sync::atomic::Ordering::SeqCst);
+            let moved = now.wrapping_mul(0x9E37_79B9_7F4A_7C15) ^ sched::PROGRESS.load(std::sync::atomic::Ordering::Relaxed);
+            let now = moved;
             if now != last {
                 last = now;
                 since = std::time::Instant::now();
@@ -130,6 +134,17 @@ fn main() {
                 eprintln!("cannot read {}: {e}", args[2]);
                 std::process::exit(2)
             });
+            // replay files of the fine-grained tier are executed by the interpreter
+            if let Ok(f) = serde_json::from_slice::<fine::FineReplay>(&data) {
+                if f.engine == "fine" {
+                    let root = parent::verif_root();
+                    let (r, code) = fine::replay(&root, &f, args[1] == "replay");
+                    if args[1] == "exec" {
+                        println!("{}", serde_json::json!({"fine": true, "ok": r.ok, "rule": r.rule, "detail": r.detail}));
+                    }
+                    std::process::exit(code);
+                }
+            }
             let file: ReplayFile = serde_json::from_slice(&data).unwrap_or_else(|e| {
                 eprintln!("cannot parse {}: {e}", args[2]);
                 std::process::exit(2)
